@@ -118,7 +118,7 @@ theorem blocks_flatten {n : Nat} (hn : 1 ≤ n) : ∀ (fuel : Nat) (l : List Mat
     | nil => rfl
     | cons a t =>
       simp only [isEmpty_cons, Bool.false_eq_true, if_false, flatten_cons]
-      rw [blocks_flatten hn f _ (by rw [length_drop]; simp at h; omega), take_append_drop]
+      rw [blocks_flatten hn f _ (by simp only [length_drop, length_cons] at h ⊢; omega), take_append_drop]
 
 /-! ### search-before -/
 
@@ -134,7 +134,7 @@ theorem lt_reverse {so : SortOrder} {a b : Match} (h : lt so a b) (hk : cmpKeys 
 theorem sort_reverseOrder {so : SortOrder} {F : List Match} (hd : HitsDistinct F) (hk : KeysDistinct so F) :
     sort (reverseOrder so) F = (sort so F).reverse := by
   refine sorted_perm_unique (sort_sorted _ hd) ?_ ((sort_perm _ F).trans ((sort_perm so F).symm.trans (reverse_perm _).symm))
-  rw [pairwise_reverse]
+  apply pairwise_reverse.mpr
   have h1 : Sorted so (sort so F) := sort_sorted so hd
   have h2 : KeysDistinct so (sort so F) := hk.perm (sort_perm so F).symm
   exact Pairwise.imp₂ (fun a b hab hkab => lt_reverse hab hkab) h1 h2
@@ -244,7 +244,7 @@ theorem blocksBack_flatten {n : Nat} (hn : 1 ≤ n) : ∀ (fuel : Nat) (l : List
     | cons a t =>
       simp only [isEmpty_cons, Bool.false_eq_true, if_false, reverse_cons, flatten_append, flatten_cons,
         flatten_nil, append_nil]
-      rw [blocksBack_flatten hn f _ (by rw [length_take]; simp at h ⊢; subst hl; simp at h; omega)]
+      rw [blocksBack_flatten hn f _ (by subst hl; simp only [length_take, length_cons] at h ⊢; omega)]
       exact take_append_lastN n (a :: t)
 
 end Bluge.TopN
